@@ -11,19 +11,19 @@ CHECKS = {
   "N-version reference-model monitor: an independent interpreter over a pure value model decides every (expression, document) execution of the real parser/evaluator/printer",
   "Type-directed random programs of the whole core fragment (depth 1-5) are run through the real lexer, parser, operators and JSON printer (library, "
   "plus a sampled real-binary cross-check and a -race slice); the ordered result list and error-vs-success must equal the reference interpreter's. "
-  "Recorded deviations are excused only when the result equals the reference with exactly one named quirk switch on. Held on the cases generated.",
+  "Recorded deviations are excused only when the result equals the reference with exactly one named quirk switch on. Held on the cases generated. Also: the same program in its minimal-bracket spelling (precedence table, ties to the right) must give the same bytes as the bracketed one; twin literals (1 / \"1\"), integers beyond 2^53, slices over streams of unequal arrays, reduce variables re-using names in scope.",
   "The reference model is calibrated to the docs and, where silent, to the pinned behaviour (detects change there); regions it marks out of domain are skipped and counted; read-traversal side effects are not modelled (mismatch there = inconclusive).",
   "DESIGN.md §5 C01, appendix A"),
  "C02": ("exploration",
   "lens-model monitor: addressed locations and the expected document are computed on a pure value model; the update laws are also checked model-free on yq's own before/after documents",
   "Per case one law (put incl. frame condition and put-get, get-put, put-put, `|=` with a function table back-to-front, `op=`) over generated documents and paths "
-  "(keys, +/- indices, splats, multi-key, recursive descent with predicate, nested matches, to-be-created suffixes). Held on the cases generated.",
+  "(keys, +/- indices, splats, multi-key, recursive descent with predicate, nested matches, to-be-created suffixes). Held on the cases generated. Further laws: right-hand sides that only read (through nulls, missing keys, one past the end), merges of two containers of the document on the right-hand side, padding multi-index steps, `=` for several context nodes at once, eval-all over two documents; a quarter of the documents through the JSON decoder.",
   "Alias-free JSON-model documents; type-incompatible prefixes are outside the quantifier; writes over nested matches and non-finite floats are not asserted.",
   "DESIGN.md §5 C02"),
  "C03": ("exploration",
   "reference-model monitor: the selection is resolved to a set of locations on a pure value model and the expected document is the input minus exactly those",
   "Three families (fresh documents, unions of overlapping/identical selections in both orders, containers just derived by sort/reverse/slice/unique/map/+/filter/flatten) "
-  "run through the real evaluator; the result must equal the model's deletion. Held on the cases generated.",
+  "run through the real evaluator; the result must equal the model's deletion. Held on the cases generated. Further families: side computations (sorted copy, variable, `[.m[]]`) before the delete, maps just built by + / *, entries merged in by explode, reads one past the end in the selection; a quarter of the documents through the JSON decoder.",
   "Alias-free JSON-model documents; deleting the root is not generated; the deriving functions are computed by the C01 reference interpreter.",
   "DESIGN.md §5 C03"),
  "C12": ("fault_enumeration",
@@ -37,97 +37,97 @@ CHECKS = {
  "C14": ("exploration",
   "independent-reader monitor: yq's encodings are read back by readers that share no code with yq (own properties/CSV/XML-tree/TOML/Lua readers and writers, gopher-lua execution, python tomllib cross-validation, stdlib base64/url) and yq's decodings are compared with generator ground truth",
   "19 cells (format x {encode, decode, in-expression pair}) get equal shares; preferences (separators, attribute prefix, content name, indent, unquoted Lua keys, auto-parse) are varied; "
-  "a sample goes through the real binary. Deviations are excused only by exact matchers (quirk switches in the own readers). Held on the values generated.",
+  "a sample goes through the real binary. Deviations are excused only by exact matchers (quirk switches in the own readers). Held on the values generated. Also: multi-document encoder state (stream == documents one by one), in-expression XML encoder vs -o=xml under non-default preferences, non-adjacent repeated XML siblings, control characters before digits in Lua strings.",
   "Per-format representable domains are stated in the evidence assumptions; the TOML encoder (scalars only) and comments on the encode side are not covered.",
   "DESIGN.md §5 C14"),
  "C13": ("exploration",
   "generator-ground-truth monitor: an own resolver of the YAML merge-key rules (cross-checked against yaml.v3's decoding) decides three read routes of the real code",
   "Own-emitted block YAML with anchors on maps/scalars/sequences, aliases in value positions, single and list merges with overlapping keys before/after explicit keys, nested merges; "
   "`-o=json .`, `explode(.)` (value and no alias/anchor/<< left in the YAML) and every leaf path read through the un-exploded document must give the resolved value. "
-  "The two recorded precedence deviations are excused only when the observation equals the resolver with exactly that switch. Held on the documents generated.",
+  "The two recorded precedence deviations are excused only when the observation equals the resolver with exactly that switch. Held on the documents generated. Also: every non-empty container converted on its own (sub-tree conversion), the document after one pass through yq (`!!merge <<`), partial explode of anchor-free sub-trees, anchored scalars inside anchored maps, values spelled like key names.",
   "Map key order is not compared; one merge entry per map; generator/yaml.v3 disagreement = inconclusive.",
   "DESIGN.md §5 C13"),
  "C15": ("exploration",
   "law monitor: permutation, stability, idempotence, antisymmetry, transitivity and input-order independence observed on real sort/compare executions, plus agreement with a reference preorder",
   "Pools mixing null/bool/ints (64-bit extremes, hex/octal)/floats/number-like strings are sorted, pairwise sorted and compared through the real evaluator; "
-  "every law is decided on the observed outputs, and order within a class (and null < bool < numbers < strings) against ref.Cmp. Held on the pools generated.",
+  "every law is decided on the observed outputs, and order within a class (and null < bool < numbers < strings) against ref.Cmp. Held on the pools generated. Also: several sequences through one sort invocation, decimal integers with leading zeros, min / max next to nulls.",
   "NaN not generated; number-vs-string order is asserted as observed on the pinned tree (the property leaves it open).",
   "DESIGN.md §5 C15"),
  "C16": ("exploration",
   "self-consistency monitor: what path, key, parent, parent|path, keys and to_entries report for every node of `f | ..` is checked against the value f produced",
   "For 18 deriving functions (identity, sort, sort_by, reverse, unique, slices, map, filter, collect, +, pick, omit, with_entries, *, sort_keys, to_entries, write-back forms) every node must satisfy "
   "the local, compositional, global (walk the path from the root, paths distinct) and enumeration relations. The recorded-index deviation is excused only when the reported indices equal "
-  "the derivation model's prediction exactly. Held on the cases generated.",
+  "the derivation model's prediction exactly. Held on the cases generated. Also: copy or variable binding followed by a delete from the source, padded writes, entries merged in by explode, JSON- and XML-decoded documents; `parent` is compared by value with the container at the parent's path.",
   "Alias-free JSON-model documents; forms where the value's root is not what f returns (group_by|.[0]) are not generated.",
   "DESIGN.md §5 C16"),
  "C17": ("exploration",
   "real-consumer monitor: yq's @sh / -o=shell text is executed by dash and bash (strace execve watch + canary) and parsed by an independent POSIX word parser",
   "Each generated hostile string / document goes through the real encoder (library and binary); the shells must see exactly one word / exactly the "
-  "generated variables with exactly the generated text, execute nothing and create no canary. Held on the strings generated, not a proof over all strings.",
+  "generated variables with exactly the generated text, execute nothing and create no canary. Held on the strings generated, not a proof over all strings. Boundary code points (U+FFFD, ends of the surrogate gap, BOM, NEL, LS/PS) and all strings through one `@sh` call are part of the workload.",
   "Trusts dash, bash and strace; NUL-free valid UTF-8 only; names the shell treats specially are checked syntactically only.",
   "DESIGN.md §5 C17"),
  "C04": ("exploration",
   "reference-model + algebraic-law monitor: ref.Merge on a pure value model, identities, operand immutability observed in the same evaluation, N-file fold through the real binary",
   "Pairs of nested maps with forced key overlap/kind switches x the 16 flag subsets go through the real `*` operator; result == reference merge, a*{}=={}*a==a*a==a, "
-  "`[(.a*.b), .a, .b]` and `(.a*.b) as $m | .` leave the operands as they were, and `yq ea '. as $i ireduce ({}; . * $i)' f1..fN` equals the left fold. Held on the cases generated.",
+  "`[(.a*.b), .a, .b]` and `(.a*.b) as $m | .` leave the operands as they were, and `yq ea '. as $i ireduce ({}; . * $i)' f1..fN` equals the left fold. Held on the cases generated. Empty-string keys and falsy values (false, 0, \"\") are part of the operand generator.",
   "The region the property leaves open (kind conflict combined with + ? n) is skipped; `+d` together is asserted as observed.",
   "DESIGN.md §5 C04"),
  "C05": ("exploration",
   "independent-reader monitor: yq's output is re-read with yaml.v3's Node API (not yqlib) and compared with the generator's ground truth and with the input's presentation extract; idempotence byte for byte",
   "An own YAML emitter with a presentation plan (scalar styles, flow/block, head/line/foot comments, anchors/aliases, explicit and custom tags, multi-document streams, leading comment blocks, "
   "comment-only and empty documents) feeds `yq .` (library, binary file and stdin); data, per-path presentation table and linearised comment stream must be preserved wherever the bare yaml.v3 "
-  "round trip preserves them; yq(yq(x)) == yq(x). Held on the streams generated.",
+  "round trip preserves them; yq(yq(x)) == yq(x). Held on the streams generated. Plus a long-line family around the 4096-byte reader boundary.",
   "N-version against yaml.v3's reader: a fault it shares in parse and print is invisible; attributes the bare library loses are counted, not asserted; generator/yaml.v3 disagreement = inconclusive.",
   "DESIGN.md §5 C05"),
  "C06": ("exploration",
   "independent-reader monitor: yq's JSON is scanned and token-walked by Go encoding/json (yq uses goccy/go-json) and compared with generator ground truth; own YAML and JSON writers vary the surface syntax; round trips through the real code",
   "12 sub-workloads: YAML (own emitter: block/flow, all scalar styles and escapes, int/float spellings, anchors/aliases/merges, depth 200, non-string keys) -> -o=json at indent 0..8 with and without unwrapping "
   "(validity, code-point exact strings, exact integers, floats by round trip, key order, layout); JSON -> YAML -> JSON and in-expression to_json/from_json; unrepresentable values (.inf/.nan anywhere) must give an error. "
-  "A third of the cases also go through the real binary. Held on the documents generated.",
+  "A third of the cases also go through the real binary. Held on the documents generated. Aliases in key position, anchor names defined again, merges of merge lists and sub-tree conversion (`-o=json .path`) are part of the alias workload.",
   "Every generated YAML text is first read by yaml.v3 inside the harness (disagreement = inconclusive); YAML 1.1-only spellings, complex keys, timestamps and binary scalars are not generated.",
   "DESIGN.md §5 C06"),
  "C07": ("exploration",
   "metamorphic presentation monitor: `yq u` and `yq .` are both re-read with yaml.v3 and must agree on every node, comment and separator outside the target set T computed by the harness",
   "11 update kinds (scalar/subtree replace, delete, += on sequences and maps, |= arithmetic/string, key creation, multi-target, recursive selection) at generated locations of commented/styled documents; "
-  "rows outside T (kind, value, tag, style, anchor, line comment, order) equal after index re-mapping, untouched comment gaps identical, document count and separators equal. Held on the cases generated.",
+  "rows outside T (kind, value, tag, style, anchor, line comment, order) equal after index re-mapping, untouched comment gaps identical, document count and separators equal. Held on the cases generated. Plus a line-level family on compose-like documents (several merge lines, repeated and pattern-looking keys, complex keys, out-of-order multi-deletes, appends of existing maps whose style differs, reads one past the end).",
   "T's own presentation and the documented restyle of an empty parent are not asserted; targets containing anchors are not generated.",
   "DESIGN.md §5 C07"),
  "C08": ("exploration",
   "metamorphic side-effect monitor: the document printed after evaluating an assignment-free expression in each position the property names must be byte-identical to `yq .`",
   "15 placement templates (variable binding, select, any_c/all_c, sort_by/group_by/unique_by keys, has/contains/pick arguments, both operands of every binary operator in a writable context, map/filter) "
-  "x generated read-only expressions (core fragment + ~100 read-only operator snippets) x documents. The auto-creation deviation is excused only when the difference consists solely of auto-creation artefacts. Held on the cases generated.",
+  "x generated read-only expressions (core fragment + ~100 read-only operator snippets) x documents. The auto-creation deviation is excused only when the difference consists solely of auto-creation artefacts. Held on the cases generated. Plus an anchored-documents family (merge flags, comparisons, in-expression encoders, entries over aliases and merge keys) and a raw `(E) as $x | .` template.",
   "In-place operators (assignment family, del, explode, sort_keys, map_values, with, setters) are outside E by the property's wording.",
   "DESIGN.md §5 C08"),
  "C09": ("exploration",
   "metamorphic parser monitor: minimal-parenthesis vs fully parenthesised vs layout-varied spellings of generated ASTs must parse to the same tree and evaluate to the same bytes; broken token lists must be rejected; live precedence table == frozen table (verif hook)",
   "Every ordered pair of binary operators (882-cell matrix) is forced through the real lexer, shunting-yard and tree builder; trees are compared modulo re-association of "
-  "associative chains, results on three documents, and single-token mutations (bracket removed/duplicated/swapped, operand removed) must give a parse error. Held on the expressions generated.",
+  "associative chains, results on three documents, and single-token mutations (bracket removed/duplicated/swapped, operand removed) must give a parse error. Held on the expressions generated. Plus families for the argument separator of two-argument functions, prefix functions followed by a traversal, interpolations inside string literals and close-before-open brackets.",
   "Nothing is asserted about how equal-precedence different operators group (the property is silent); layout is varied only at token boundaries the lexer rules make unambiguous (listed in the evidence assumptions).",
   "DESIGN.md §5 C09"),
  "C10": ("exploration",
   "metamorphic monitor on the real binary and the in-process evaluators: a multi-file/multi-document run must equal the per-document runs joined by separators; index/filename bookkeeping against the harness's own; history permutations",
   "Generated file sets (0..k documents each, empty files, stdin, comment/separator-laden documents) x ~125 document-local expression templates x {eval, eval-all} x -N; "
-  "byte oracle (O1/O5), parsed-stream oracle (O2), [document_index, file_index, filename] (O3), eval-all vs eval and N-in-N-out (O4). Deviations are excused only by exact matchers. Held on the cases generated.",
+  "byte oracle (O1/O5), parsed-stream oracle (O2), [document_index, file_index, filename] (O3), eval-all vs eval and N-in-N-out (O4). Deviations are excused only by exact matchers. Held on the cases generated. Plus: prelude-comment ownership, index keys of sequence elements, files stamped from one template (anchors redefined per document), regular expressions taken from the document, encoder state across documents for every output format.",
   "YAML only; comment layouts that yaml.v3 itself re-attaches across documents are kept out of the generator.",
   "DESIGN.md §5 C10"),
  "C18": ("exploration",
   "Go race detector over concurrent evaluations on separate evaluators + global-state fingerprint (verif hook) after every step + history oracle: every in-process step must equal the one-shot answer of the real binary; 5x repeat of the binary",
   "Three families: repeat (byte-identical stdout/stderr/exit over 5 runs, order-sensitive operators on >=8-key documents), history (120-160 steps re-using parser, parsed trees, decoders, encoders, printers; "
   "each step == fresh-process answer; VerifGlobalFingerprint unchanged), schedules (G in {2,4,16} x GOMAXPROCS in {1,2,16}, start barrier, concurrent parses and evaluations; results == sequential answers; "
-  "every race report with yq frames is a violation). Evidence records overlap pairs actually observed. Held on the schedules the Go scheduler produced.",
+  "every race report with yq frames is a violation). Evidence records overlap pairs actually observed. Held on the schedules the Go scheduler produced. Pool entries include document-less inputs (comment-only / empty files) first through a re-used eval-all decoder, interpolated-literal arguments and cold-process race cases.",
   "No report does not mean no race; now/shuffle/env excluded; results depend on this machine's zoneinfo.",
   "DESIGN.md §5 C18"),
  "C19": ("exploration",
   "real-binary monitor with independent per-format readers, an independent small evaluator, strace (no read on fd 0 under -n) and failure injection at (file j, document k)",
   "Six families through the real executable: complete-or-fail with a sentinel document, injected syntax/type/encoder failures at every position, result-shape x output-format sweep for silent drops, "
-  "-e truth table, -n never reads stdin (strace + pipe residue), automatic format by first file's extension, flag consistency (-N -r -0 -I). Held on the runs produced.",
+  "-e truth table, -n never reads stdin (strace + pipe residue), automatic format by first file's extension, flag consistency (-N -r -0 -I). Held on the runs produced. Also: companion flags of -e, malformed spots between the documents of JSON streams and inside CSV/TSV files, a first input without extension / stdin, stdout = /dev/full.",
   "Values are tame (escaping belongs to C06/C14); stdout write failures are not injected.",
   "DESIGN.md §5 C19"),
  "C11": ("exploration",
   "recover()/journal/CPU-watchdog monitor over seeded expression x input x format fuzz workloads, plus a -race/checkptr slice",
   "Every case runs the real parser, decoders, operators, printer and encoders in a child worker; a recovered panic, a fatal runtime "
   "death attributed through the pre-call journal, or a case exceeding its CPU budget is a violation unless it matches a listed "
-  "known finding exactly (function + message class). Held on the executions produced, nothing more.",
+  "known finding exactly (function + message class). Held on the executions produced, nothing more. Workloads include layout stretching, attribute rewrites followed by use of the node, self-referential anchors, expression strings that eval themselves, repeated keys, texts that are not UTF-8, and a family that drives the real binary with random combinations of its command-line flags.",
   "Trusts the Go runtime's panic/fatal reporting and rusage CPU accounting; crash sites outside the generators' reach are unobserved.",
   "DESIGN.md §5 C11"),
 }
